@@ -939,7 +939,7 @@ def run(ctx: Context, R: Reporter):
 
 
 def variants():
-    from ..variants import Variant, alpha_rename, delete_stmt, insert_after, replace_expr, replace_stmt
+    from ..variants import Variant, alpha_rename, chain, delete_stmt, insert_after, insert_before, replace_expr, replace_stmt
 
     mc = "tempest/mcmc.py"
     f = "apply_boundary_conditions"
@@ -952,6 +952,21 @@ def variants():
         Variant("c-one-sided-1d", "bad", replace_expr(mc, g, "np.all(u_strict >= 0) and np.all(u_strict <= 1)", "np.all(u_strict <= 1)"), ["C16.c"], quick=True),
         Variant("c-open-upper-2d", "bad", replace_expr(mc, g, "np.all(u_strict <= 1, axis=-1)", "np.all(u_strict < 1, axis=-1)"), ["C16.c"]),
         Variant("c-forget-reflective", "bad", replace_stmt(mc, g, "special_indices.update(reflective)", "pass"), ["C16.c"]),
+        # the special set built with |= / | over set-like views of the lists, through locals that are None when the list is absent
+        Variant("c-benign-special-set-ior-frozenset", "benign", chain(
+            replace_stmt(mc, g, "special_indices.update(periodic)", "special_indices |= frozenset(periodic)"),
+            replace_stmt(mc, g, "special_indices.update(reflective)", "special_indices |= set(reflective)")), quick=True),
+        Variant("c-benign-special-set-through-optional-keys", "benign", chain(
+            insert_before(mc, g, "special_indices = set()", "pkey = None if periodic is None else frozenset(periodic)\nrkey = None if reflective is None else frozenset(reflective)"),
+            replace_stmt(mc, g, "special_indices.update(periodic)", "special_indices = special_indices | pkey"),
+            replace_stmt(mc, g, "special_indices.update(reflective)", "special_indices |= rkey"))),
+        Variant("c-special-set-ior-same-list-twice", "bad", chain(
+            replace_stmt(mc, g, "special_indices.update(periodic)", "special_indices |= frozenset(periodic)"),
+            replace_stmt(mc, g, "special_indices.update(reflective)", "special_indices |= frozenset(periodic)")), ["C16.c"], quick=True),
+        Variant("c-special-set-optional-key-of-wrong-list", "bad", chain(
+            insert_before(mc, g, "special_indices = set()", "pkey = None if periodic is None else frozenset(periodic)\nrkey = None if reflective is None else frozenset(periodic)"),
+            replace_stmt(mc, g, "special_indices.update(periodic)", "special_indices |= pkey"),
+            replace_stmt(mc, g, "special_indices.update(reflective)", "special_indices |= rkey")), ["C16.c"]),
         Variant("d-periodic-mod2", "bad", replace_expr(mc, f, "u[..., idx] % 1.0", "u[..., idx] % 2.0"), ["C16.d"], quick=True),
         Variant("d-reflect-swapped", "bad", replace_expr(mc, f, "np.where(np.mod(n_reflect, 2.0) == 0, remainder, 1.0 - remainder)", "np.where(np.mod(n_reflect, 2.0) == 0, 1.0 - remainder, remainder)"), ["C16.d"], quick=True),
         Variant("d-reflect-parity-1", "bad", replace_expr(mc, f, "np.mod(n_reflect, 2.0) == 0", "np.mod(n_reflect, 2.0) == 1"), ["C16.d"]),
